@@ -47,6 +47,27 @@ theorem C15_judged_on_copy (r : RuleM) (doc copy : PyVal) (t : RuleTestR) (copy'
     (r.cast = [] → t.data = doc ∧ copy' = copy) ∧ (r.cast ≠ [] → t.data = copy') := by
   exact test_judged r doc copy t copy' h
 
+/-- the nodes a rule casts are the ones its path selects in the document it was GIVEN – read from the source
+    (`castSelectsInDocument`: `self.path.get_data(data, ...)`) – whatever earlier rules have written into the
+    shared working copy: a later rule selecting by the content an earlier rule cast still finds its nodes -/
+theorem C15_cast_selection_in_document (r : RuleM) (doc copy : PyVal) (hc : r.cast ≠ []) :
+    castSelectsInDocument = true ∧
+    r.test doc copy = (do
+      let _ ← DataV.ofPy doc
+      let copy' ← match ← selection r.path doc with
+        | none => pure copy
+        | some sub => castLoop r.cast sub copy
+      let t ← ruleTestOn r copy'
+      pure (t, copy')) := by
+  refine ⟨rfl, ?_⟩
+  have he : r.cast.isEmpty = false := by
+    cases hcs : r.cast with
+    | nil => exact absurd hcs hc
+    | cons a as => rfl
+  unfold RuleM.test
+  rw [castSource_eq, he]
+  rfl
+
 /-- writing one level: the written key now holds the value, every other key holds what it held -/
 theorem C15_setItem_dict (kvs : List (PyVal × PyVal)) (k v : PyVal) (c' : PyVal)
     (hk : Py.dictHasKey k kvs = true) (h : setItem (.dict kvs) k v = .ok c') :
